@@ -57,6 +57,21 @@ def run_shard(spec, rep):
         case = dict(fc.describe(), index=index)
         rep.case(case, nontrivial=fc.mode != "V", cls=f"{fc.model}-{fc.mode}")
         _guarded(rep, case, "flux", lambda: fc.pv.calculate_partial_fluxes(**fc.kwargs()))
+        if index % 16 == 0:
+            # the public helpers built on one flux calculation; they are entitled to exactly one
+            if rep.n_violations >= 3:
+                break
+            hp = rng.choice([None, fc.precision])
+            if rng.random() < 0.5:
+                fn = (lambda: fc.pv.calculate_permeate_composition(fc.t_feed, fc.comp, permeate_temperature=fc.tp, permeate_pressure=fc.pp, calculation_type=fc.model)) if hp is None else \
+                     (lambda: fc.pv.calculate_permeate_composition(fc.t_feed, fc.comp, hp, fc.tp, fc.pp, fc.model))
+                what = "permeate_composition_helper"
+            else:
+                fn = (lambda: fc.pv.calculate_separation_factor(fc.t_feed, fc.comp, fc.tp, fc.pp, calculation_type=fc.model)) if hp is None else \
+                     (lambda: fc.pv.calculate_separation_factor(fc.t_feed, fc.comp, fc.tp, fc.pp, hp, fc.model))
+                what = "separation_factor_helper"
+            with guards.call_budget(2):
+                _guarded(rep, dict(case, helper=what, helper_precision=hp), what, fn)
     # process and curve models started in the cycling region
     for index in range(spec["models"]):
         idx = 100000 + index
@@ -87,7 +102,8 @@ def run_shard(spec, rep):
             cond = Conditions(membrane_area=1.0, initial_feed_temperature=fc.t_feed, initial_feed_amount=100.0,
                               initial_feed_composition=fc.comp, permeate_temperature=fc.tp)
             fn = lambda: getattr(fc.pv, kind)(conditions=cond, number_of_steps=5, delta_hours=0.05, precision=fc.precision, calculation_type=fc.model)
-        _guarded(rep, case, "model", fn)
+        with guards.call_budget(12):  # at most 5 steps / 4 points, two flux calculations a step at the very most
+            _guarded(rep, case, "model", fn)
     for k, v in guards.eval_histogram().items():
         rep.count("evaluations_per_flux_calculation " + k, v)
 
